@@ -21,6 +21,8 @@ for d in sorted(glob.glob(os.path.join(ROOT, "seeded", "*", "meta.json"))):
     pid = meta["property"]
     rc, out = sh(["git", "-C", REPO, "status", "--short"])
     assert not out.strip(), out
+    ev = os.path.join(ROOT, "evidence", pid + ".json")
+    ev_keep = open(ev).read() if os.path.exists(ev) else None  # evidence describes the unchanged tree: put it back
     try:
         rc, out = sh(["git", "-C", REPO, "apply", os.path.join(sd, "patch.diff")])
         assert rc == 0, out
@@ -35,6 +37,8 @@ for d in sorted(glob.glob(os.path.join(ROOT, "seeded", "*", "meta.json"))):
                 shutil.copy(rp, os.path.join(sd, f"replay-{pid}.txt"))
     finally:
         sh(["git", "-C", REPO, "checkout", "--", "."])
+        if ev_keep is not None:
+            open(ev, "w").write(ev_keep)
     json.dump(meta, open(d, "w"), indent=1)
     print(name, "DETECTED" if rc != 0 else "MISSED", vio[:1], flush=True)
     if rc == 0:
